@@ -13,7 +13,7 @@ TECHNIQUE = 'runtime monitoring: offline checker of the recorded history (genera
 LEVEL = "exploration"
 RULE = (
     "case = 1-4 files (root, sub folder, nested history) x generation sequence of length 1-6 over non-empty format subsets x "
-    "per-generation content transition per file (keep / alter / restore) x folder or -sf mode; thorough additionally "
+    "per-generation content transition per file (keep / alter / restore) x folder or -sf mode, 6 % with 11-13 generations, 20 % as travelling history (another zone per generation, clock sometimes set back); thorough additionally "
     "enumerates every sequence of length<=3 over subsets of {md5,xxh64,sha1} x every valid transition pattern; "
     "class = (format-set sequence shape, content pattern, mode, nested) with length>=2"
 )
